@@ -114,8 +114,7 @@ PoolP(op) ==
           ELSE A2small \cup T3 \cup RPolys \cup Sparse4)
     ELSE Full4 \cup RPolys
 PoolQ(op) ==
-    IF Quick THEN (IF op \in {"add", "sub"} THEN A2small \cup Sparse4 \cup RPolys
-                   ELSE A2small \cup T3 \cup RPolys \cup Sparse4)
+    IF op \in {"add", "sub"} THEN A2small \cup Sparse4 \cup RPolys
     ELSE A2small \cup T3 \cup RPolys \cup Sparse4
 MapPool == { << Ent(0, I(1)), Ent(1, I(2)) >>, << Ent(0, I(-1)), Ent(2, I(1)) >>, << Ent(1, I(1)) >>,
              << Ent(0, I(2)), Ent(1, I(-1)), Ent(3, I(1)) >>, << >>, << Ent(2, I(-2)), Ent(3, I(1)) >>,
@@ -148,6 +147,8 @@ EuclidPolyPool ==
       << Ent(1, I(1)), Ent(2, I(1)) >>, << Ent(0, I(1)), Ent(1, I(2)), Ent(2, I(1)) >>,
       << Ent(1, I(-1)), Ent(3, I(1)) >>, << Ent(0, I(2)), Ent(1, I(2)) >>,
       << Ent(0, I(1)), Ent(2, I(1)) >>, << Ent(0, I(-2)), Ent(1, I(1)), Ent(2, I(1)) >> }
+    \ (IF Quick THEN { << Ent(0, I(2)), Ent(1, I(2)) >>, << Ent(0, I(1)), Ent(2, I(1)) >>,
+                       << Ent(1, I(-1)), Ent(3, I(1)) >>, << Ent(0, I(2)) >> } ELSE {})
 PEuclidSeeds == { [part |-> "peuclid", ph |-> "seed", P |-> pp] : pp \in EuclidPolyPool }
 PEuclidNext(s) == \E qq \in EuclidPolyPool :
                     st' = [part |-> "peuclid", ph |-> "case", P |-> s.P, Q |-> qq, ac |-> ""]
@@ -161,7 +162,7 @@ QuotNext(s) == \E d \in QuotRange : st' = [part |-> "quot", ph |-> "case", n |->
 QPrimes == << 10007, 10009, 30011 >>
 ASSUME \A i \in 1..Len(QPrimes) : QPrimes[i] \in KnownPrimes /\ IsPrime(QPrimes[i])
 QuotBigSeeds == { [part |-> "quotbig", ph |-> "seed", k |-> k] :
-                    k \in (IF Quick THEN {31, 40, 52, 53, 54, 64, 100} ELSE (30..70) \cup {100, 127, 128, 1000}) }
+                    k \in (IF Quick THEN {31, 40, 52, 53, 54, 64, 100, 1100} ELSE (30..70) \cup {100, 127, 128, 1000, 1100}) }
 QuotBigNext(s) == \E a \in -2..3, d \in {-7, -3, -2, -1, 1, 2, 3, 5, 6, 10} :
                     st' = [part |-> "quotbig", ph |-> "case", k |-> s.k, a |-> a, d |-> d, ps |-> QPrimes, ac |-> ""]
 
